@@ -165,6 +165,10 @@ class Evaluator:
         if not T.is_op(v, 'ITER'):
             return v
         data, pos = self.heap[v[2][1]]
+        if T.is_op(data, 'MAP') and T.is_const(pos):
+            # a symbolic sequence: all of it on the first pass, nothing afterwards
+            self.heap[v[2][1]] = (data, T.const(-1))
+            return data if pos[1] == 0 else T.lst([])
         if not (T.tag(data) == 'list' and T.is_const(pos)):
             return T.opaque('one-shot iterator in an undetermined state')
         self.heap[v[2][1]] = (data, T.const(len(data[1])))
@@ -277,7 +281,24 @@ class Evaluator:
         self._stack.append(key)
         try:
             if _is_generator(fi.node):
-                return T.opaque('generator %s' % key), facts
+                if not _simple_generator(fi.node):
+                    return T.opaque('generator %s' % key), facts
+                # a generator whose yields sit at the top level of its body or in top-level `for` loops: calling it gives
+                # a one-shot iterator over what it yields (the body runs when the iterator is consumed; for what this
+                # analysis observes - the values, once - running it now is the same, except that a second pass is empty)
+                fr.yields = []
+                res = self.block(fi.node.body, fr)
+                ys = fr.yields
+                if len(ys) == 1 and T.is_op(ys[0], 'MAP'):
+                    it_ = self.new_iter([])
+                    self.heap[it_[2][1]] = (ys[0], T.const(0))
+                else:
+                    if any(T.is_op(y, 'MAP') for y in ys):
+                        return T.opaque('generator %s mixes loops and single yields' % key), facts
+                    it_ = self.new_iter(ys)
+                if res is FALL:
+                    return it_, fr.facts
+                return _map_leaves(res, lambda x: x if T.tag(x) == 'raise' else it_), fr.facts
             res = self.block(fi.node.body, fr)
         finally:
             self._stack.pop()
@@ -1002,13 +1023,20 @@ class Evaluator:
         if st.orelse or not body:
             return False
         last = body[-1]
-        if not (isinstance(last, ast.Expr) and isinstance(last.value, ast.Call) and isinstance(last.value.func, ast.Attribute)
-                and last.value.func.attr == 'append' and isinstance(last.value.func.value, ast.Name)
-                and len(last.value.args) == 1 and not last.value.keywords):
+        is_yield = isinstance(last, ast.Expr) and isinstance(last.value, ast.Yield) and last.value.value is not None
+        if is_yield:
+            # `for x in it: [temporaries]; yield E` in a generator: the sequence of yielded values is [E for x in it]
+            if fr.yields:
+                return False
+            acc, elem_expr = None, last.value.value
+        elif not (isinstance(last, ast.Expr) and isinstance(last.value, ast.Call) and isinstance(last.value.func, ast.Attribute)
+                  and last.value.func.attr == 'append' and isinstance(last.value.func.value, ast.Name)
+                  and len(last.value.args) == 1 and not last.value.keywords):
             return False
-        acc = last.value.func.value.id
-        if fr.env.get(acc) != T.lst([]):
-            return False
+        else:
+            acc, elem_expr = last.value.func.value.id, last.value.args[0]
+            if fr.env.get(acc) != T.lst([]):
+                return False
         def simple(s_):
             if isinstance(s_, ast.Assign):
                 return all(isinstance(t_, ast.Name) for t_ in s_.targets)
@@ -1038,7 +1066,7 @@ class Evaluator:
                     fr.env = saved
                     return False
                 guard = r if guard is FALL else _replace_fall(guard, r)
-        val = self.expr(last.value.args[0], fr)
+        val = self.expr(elem_expr, fr)
         if guard is not FALL:
             val = _replace_fall(guard, val)
         for k in list(fr.env):
@@ -1046,7 +1074,10 @@ class Evaluator:
                 del fr.env[k]
             else:
                 fr.env[k] = saved[k]
-        fr.env[acc] = T.raw_op('MAP', var, val, src, T.TRUE, T.const('list'))
+        if acc is None:
+            fr.yields.append(T.raw_op('MAP', var, val, src, T.TRUE, T.const('list')))
+        else:
+            fr.env[acc] = T.raw_op('MAP', var, val, src, T.TRUE, T.const('list'))
         return True
 
     def _loop_body(self, body, fr):
@@ -1764,6 +1795,12 @@ class Evaluator:
                     c, node_ = a
                     return self._class_attr(c, name, fr.depth)
             return T.raw_op('ATTR', base, T.const(name))
+        if T.is_op(base, 'STRUCTOBJ'):
+            lay = X._struct_layout(base[2][1])
+            if name == 'size' and lay is not None:
+                return T.const(sum(sz for sz, _ in lay[1]))
+            if name == 'format':
+                return base[2]
         if k in ('func', 'bound') and name in ('__name__', '__qualname__'):
             q = base[1] if k == 'func' else base[2]
             return T.const(q.split('.')[-1])
@@ -2171,6 +2208,24 @@ def absorb_ser_guards(t, _memo=None):
         r = (k, tuple(absorb_ser_guards(x, memo) for x in t[1]))
     memo[id(t)] = (t, r)
     return r
+
+
+def _simple_generator(fn):
+    """every yield is a statement at the top level of the body or the last statement of a top-level `for` loop; no
+    `while`, no `yield from`, no value received from send()"""
+    ok = set()
+    for s_ in fn.body:
+        if isinstance(s_, ast.Expr) and isinstance(s_.value, ast.Yield):
+            ok.add(id(s_.value))
+        if isinstance(s_, ast.For) and s_.body and isinstance(s_.body[-1], ast.Expr) and isinstance(s_.body[-1].value, ast.Yield) \
+                and not s_.orelse:
+            ok.add(id(s_.body[-1].value))
+    for n in ast.walk(fn):
+        if isinstance(n, (ast.While, ast.YieldFrom)):
+            return False
+        if isinstance(n, ast.Yield) and id(n) not in ok:
+            return False
+    return bool(ok)
 
 
 _ITER_CONSUMERS = {'list', 'tuple', 'sorted', 'set', 'frozenset', 'dict', 'sum', 'min', 'max', 'any', 'all', 'enumerate', 'zip', 'map',
